@@ -266,3 +266,30 @@ contract(
     exc_ensures={"ValueError": ["not old(bucket_id in self._metadata)"]},
     modifies=["alloc"], writes_fresh=["*"], raises=["ValueError"],
 )
+
+# -- update_bucket: a keyed-map update - every field supplied replaces the stored one, nothing else changes --------------------------
+contract(
+    M_ + ".update_bucket",
+    params={"self": "MemoryStorage", "bucket_id": "str", "type_id": "Optional[str]", "client": "Optional[str]", "hostname": "Optional[str]",
+            "name": "Optional[str]", "data": "Optional[Dict[str,JV]]"},
+    requires=["mem_inv(self)",
+              # the property's domain for the string fields: non-empty strings
+              "(type_id is None or len(type_id) > 0) and (client is None or len(client) > 0) and (hostname is None or len(hostname) > 0)"
+              " and (name is None or len(name) > 0)"],
+    ensures=[
+        "old(bucket_id in self._metadata) and self._metadata[bucket_id] is old(self._metadata[bucket_id])",
+        "type_id is None or self._metadata[bucket_id]['type'] == type_id",
+        "client is None or self._metadata[bucket_id]['client'] == client",
+        "hostname is None or self._metadata[bucket_id]['hostname'] == hostname",
+        "name is None or self._metadata[bucket_id]['name'] == name",
+        # a data table supplied replaces the stored one - also an empty one
+        "data is None or jv_dict(self._metadata[bucket_id]['data']) is data",
+        # every field not supplied, and every other key of the entry, is as before
+        "all((k == 'type' and type_id is not None) or (k == 'client' and client is not None) or (k == 'hostname' and hostname is not None)"
+        "    or (k == 'name' and name is not None) or (k == 'data' and data is not None)"
+        "    or (k in self._metadata[bucket_id] and same_value(self._metadata[bucket_id][k], old(self._metadata[bucket_id][k])))"
+        "    for k in old(self._metadata[bucket_id]))",
+    ],
+    exc_ensures={"ValueError": ["not old(bucket_id in self._metadata)"]},
+    modifies=["self._metadata[bucket_id][]"], raises=["ValueError"],
+)
